@@ -13,7 +13,7 @@ import json
 
 import numpy as np
 
-from harness import engine
+from harness import engine, memo
 
 PROP = "C20"
 LEVEL = "model_checking"
@@ -130,6 +130,7 @@ def run(rep: engine.Report, tier: str, seed: int):
     engine.collect(rep, cases, results, key=lambda c: c)
     rep.exhaustive = True
     rep.traces_validated = len(cases)
+    memo.run_family(rep, ["matcher_provider_scales"])
     rep.samples = cases[:2]
     rep.rule = (
         "TLC: every extent 6..24 x depth 1..6 x every partition into <= 3 chunks (each >= depth) x every particle voxel: each particle "
